@@ -845,7 +845,7 @@ class Pass(object):
         ]
         data = data[oConstraints[-1] :]
         self.actions = [
-            (data[s:e] if (e - s > 1) else "") for (s, e) in zip(oActions, oActions[1:])
+            (data[s:e] if (e - s > 1) else b"") for (s, e) in zip(oActions, oActions[1:])
         ]
         data = data[oActions[-1] :]
         # not using debug
